@@ -247,6 +247,7 @@ def gen_world(rng):
     w["algs"] = algs
     w["log_debug"] = rng.random() < 0.1  # the package logger at DEBUG level: must not change anything
     w["fs_as"] = rng.choices(["float", "npint", "npfloat32", "int", "npfloat"], weights=[0.76, 0.07, 0.05, 0.07, 0.05])[0]
+    w["dropout"] = rng.random() < 0.04
     return w
 
 
@@ -268,6 +269,12 @@ def build_arrays(w, only=None, gen=0):
                 big = np.full((a.shape[0] + 4, a.shape[1] + 3), 3.5)
                 big[2:2 + a.shape[0], 1:1 + a.shape[1]] = a
                 a = big[2:2 + a.shape[0], 1:1 + a.shape[1]]
+            if w.get("dropout") and i == 0 and j == 0 and gen == 0:
+                # a sensor dropout: a few non-finite samples in one channel. Most algorithms then fail on their own
+                # (or produce NaN results) - in the history and in the isolated reference alike; what must still hold
+                # is that nobody "repairs" the shared array in place
+                k0 = a.shape[0] // 3
+                a[k0:k0 + 3, a.shape[1] - 1] = np.nan
             arrs.append(a)
         out.append(arrs)
     return out
